@@ -393,6 +393,23 @@ Definition prod_range (bits k : Z) : Z * Z :=
   let slack := 2 + Z.abs fl / 2 ^ 51 in
   (fl - slack, fl + 1 + slack).
 Definition range_tok_clamped (lo hi : Z) : tok := TRange (clamp lo) (clamp hi).
+(* the property's own words for a finite float count q of a unit of k nanoseconds: "the real product rounded to the nearest
+   double and truncated toward zero to a whole nanosecond", saturating -- on integers: q = m * 2^e, the product m * k * 2^e is
+   rounded to 53 significant bits (ties to even), then truncated.  (Below 2^-1022 a double has fewer bits, but such a product
+   truncates to zero either way; beyond 2^1024 the rounded value is an infinity, and the clamp gives the same bound.) *)
+Definition rn53 (N : Z) : Z * Z :=
+  let a := Z.abs N in
+  let bits := if a =? 0 then 0 else Z.log2 a + 1 in
+  if bits <=? 53 then (N, 0)
+  else let s := bits - 53 in
+       let q := a / 2 ^ s in let r := a mod 2 ^ s in let half := 2 ^ (s - 1) in
+       let q' := if (half <? r) || ((r =? half) && Z.odd q) then q + 1 else q in
+       ((if N <? 0 then - q' else q'), s).
+Definition spec_unit_times_float (bits k : Z) : Z :=
+  let '(m, e) := f_mant_exp bits in
+  let '(M, s) := rn53 (m * k) in
+  let ee := s + e in
+  clamp (if 0 <=? ee then M * 2 ^ ee else Z.quot M (2 ^ (- ee))).
 (* f64 nearest to z / 10^9 up to double rounding, via Flocq: used only to centre the tolerance window *)
 Definition approx_seconds (z : Z) : f64 := fdiv (f_of_Z z) (f_of_Z 1000000000).
 Definition fwindow (x : f64) (abs_slack_bits : Z) : tok :=
@@ -410,7 +427,7 @@ Definition dispatch_float (name : string) (a : list tok) : option (list tok * li
       Some (tdur3 (unit_mul_f64 (unit_of_Z u) q),
             if f_is_nan q then [TZ 0; TZ 0; TZ 0]
             else if f_is_inf q then (if f_sign q then tdur3 D_MIN else tdur3 D_MAX)
-            else let '(lo, hi) := prod_range qb (suf u) in [TNoSpec; TNoSpec; range_tok_clamped lo hi])
+            else let v := spec_unit_times_float qb (suf u) in sdur v ++ [TZ v])
   | "dur_mul_f64"%string, [TZ c; TZ n; TZ qb] =>
       let q := f_of_bits qb in let v := pval c n in
       Some (tdur3 (dur_mul_f64 (from_parts c n) qb),
